@@ -336,15 +336,26 @@ mzd_t *mzd_from_jcf(const char *fn, int verbose) {
            (unsigned long)m, (unsigned long)n, (unsigned long)nonzero,
            ((double)nonzero) / ((double)m * n));
 
+  if (m < 0 || n < 0 || n > 0x7fffffff - (m4ri_radix - 1)) {
+    if (verbose) printf("File '%s' has invalid dimensions %d x %d.\n", fn, m, n);
+    retval = 1;
+    goto from_jcf_close_fh;
+  }
+
   A = mzd_init(m, n);
 
   long i = -1;
   long j = 0;
 
   while (fscanf(fh, "%ld\n", &j) == 1) {
-    if (j < 0) { i++, j = -j; }
-    if (((j - 1) >= n) || (i >= m))
-      m4ri_die("trying to write to (%ld,%ld) in %ld x %ld matrix\n", i, j - 1, m, n);
+    if (j < 0) {
+      i++;
+      if (j < -(long)n)
+        m4ri_die("trying to write to (%ld,%ld) in %ld x %ld matrix\n", i, -(j + 1), (long)m, (long)n);
+      j = -j;
+    }
+    if (((j - 1) < 0) || ((j - 1) >= n) || (i < 0) || (i >= m))
+      m4ri_die("trying to write to (%ld,%ld) in %ld x %ld matrix\n", i, j - 1, (long)m, (long)n);
     mzd_write_bit(A, i, j - 1, 1);
   };
 
